@@ -362,7 +362,12 @@ def run(ctx):
                  "cache_deactivate no longer deletes the cache tolerantly")
     a = repo.func("_common", "memoize_when_activated.cache_activate")
     st = [s for s in ast.walk(a.node) if isinstance(s, ast.Assign)]
-    if st and norm_stmt(st[0]).replace(" ", "") == "proc._cache={}":
+    ap0 = a.node.args.args[0].arg if a.node.args.args else "proc"
+    if st and any(isinstance(s_.targets[0], ast.Attribute) and s_.targets[0].attr == "_cache"
+                  and dotted(s_.targets[0].value) == ap0
+                  and (isinstance(s_.value, ast.Dict) and not s_.value.keys
+                       or isinstance(s_.value, ast.Call) and dotted(s_.value.func) == "dict"
+                       and not s_.value.args and not s_.value.keywords) for s_ in st):
         ctx.ok("C16.R4", "activate", sample="proc._cache = {}")
     else:
         ctx.fail("C16.R4", "activate", a.file, a.node.lineno, a.qual,
@@ -443,8 +448,11 @@ def run(ctx):
     stores = [s for s in ast.walk(lp) if isinstance(s, ast.Assign)
               and isinstance(s.targets[0], ast.Subscript)]
     ret = ad.node.body[-1]
-    good = len(stores) == 1 and dotted(stores[0].targets[0].slice) == var \
+    # every store into the result is keyed by the loop's name (one shared store, or one
+    # per branch), and that mapping is what is returned
+    good = len(stores) >= 1 and all(dotted(s_.targets[0].slice) == var for s_ in stores) \
         and isinstance(ret, ast.Return) \
+        and len({dotted(s_.targets[0].value) for s_ in stores}) == 1 \
         and dotted(ret.value) == dotted(stores[0].targets[0].value)
     src = norm_stmt(lp.iter).replace(" ", "")
     if good and src in ("ls", "attrsorvalid_names"):
